@@ -632,12 +632,42 @@ func (r *run) releaseClients(task int, pm *promM) {
 
 func (r *run) resolver(pm *promM) {
 	s := r.s
-	n := s.Choice("resolve-delay", 12)
+	// (widened from 12: in the upper half the end of a join chain is only resolved once every
+	// Join that leads to it has returned - Join waits for resolutions that are in progress and for
+	// pipelined calls being delivered, never for a resolution that has not begun)
+	n := s.Choice("resolve-delay", 24)
+	afterJoins := n >= 12
+	n %= 12
 	for i := 0; i < n; i++ {
 		simrt.YieldAt("resolver")
 	}
 	if s.Failed() {
 		return
+	}
+	if afterJoins && pm.kind != 2 {
+		var joiners []*promM
+		for _, q := range r.proms {
+			if q.kind != 2 {
+				continue
+			}
+			for t := q.joinTo; t != nil; t = t.joinTo {
+				if t == pm {
+					joiners = append(joiners, q)
+					break
+				}
+			}
+		}
+		if len(joiners) > 0 {
+			s.Probe("chain_end_resolved_only_after_the_joins_returned")
+			s.Block("joins-returned", func() bool {
+				for _, q := range joiners {
+					if !q.returned {
+						return false
+					}
+				}
+				return true
+			})
+		}
 	}
 	if r.guard {
 		// known finding: a call through a pipelined client that arrives while the
